@@ -355,8 +355,8 @@ fn run(run: &mut Run) {
     } else {
         run.enumerate("polygons-4x4-len5", 16u64.pow(5), &small_poly_case(4, 5));
     }
-    run.explore("polygons-random", run.tier.pick(20_000, 600_000), 200, &big_poly_case);
-    run.explore("paths", run.tier.pick(20_000, 400_000), 60, &path_case);
+    run.explore("polygons-random", run.tier.pick(100_000, 1_000_000), 200, &big_poly_case);
+    run.explore("paths", run.tier.pick(100_000, 800_000), 60, &path_case);
 }
 fn case(sub: &str) -> Option<Box<CaseFn<'static>>> {
     match sub {
